@@ -176,7 +176,14 @@ func stdSeqHasSuffix(_ context.Context, suffix, subject rel.Value) (rel.Value, e
 }
 
 func stdSeqRepeat(_ context.Context, arg rel.Value) (rel.Value, error) {
-	n := int(arg.(rel.Number))
+	count, is := arg.(rel.Number)
+	if !is {
+		return nil, fmt.Errorf("repeat: count not a number: %v", arg)
+	}
+	n := int(count)
+	if n < 0 {
+		return nil, fmt.Errorf("repeat: count is negative: %v", arg)
+	}
 	return rel.NewNativeFunction("repeat(n)", func(_ context.Context, arg rel.Value) (rel.Value, error) {
 		switch seq := arg.(type) {
 		case rel.String:
